@@ -23,6 +23,12 @@ type propInfo struct {
 	Assumptions []string
 	Components  map[string]string
 	Also        *propInfo // a second engine that also decides this property
+	// systematic fault placement over small base scenarios (engine B), run as a second batch of the check
+	Enum              bool
+	EnumRule          string
+	EnumPairsQuick    int
+	EnumPairsThorough int
+	mode              string
 }
 
 func (p *propInfo) perRun() time.Duration {
@@ -170,9 +176,13 @@ var propsB = map[string]*propInfo{
 		Oracles: []string{"C05.clients-identical", "C05.equals-log-replay", "C05.equals-server-rebuild (real snapshot.Manager.GetLatestDatatype)", "C05.remote-once-in-log-order", "C05.checkpoint-monotone", "C05.drain-terminates (<= 8 rounds)", "C06 log invariants after every event", "C05.every-call-returns", "C05.client-crash"}},
 	"C06": {Rule: sprintf(ruleB, "at least two clients pushed and at least one exchange both pushed and pulled"),
 		Oracles: []string{"C06.sseq-gapless", "C06.end-matches", "C06.every-pushed-op-once", "C06.client-order", "C06.checkpoint-sound", "C06.one-datatype-per-key"}},
-	"C07": {Level: "fault_enumeration", Rule: sprintf(ruleB, "at least one message fault fired (response dropped, request duplicated, request lost, response delivered late) and an exchange both pushed and pulled"),
+	"C07": {Level: "fault_enumeration", QuickS: 80, ThoroughS: 1200, Enum: true, EnumPairsQuick: 60, EnumPairsThorough: 600,
+		EnumRule: "systematic batch: base scenarios (2-3 clients, 1-2 datatypes, 6-15 events quick / 6-24 thorough, fault-free, at least one transaction, every client syncs at the end) generated from mix64(VERIF_SEED, property/enum, index); for each base scenario EVERY single placement of {response dropped, request duplicated (copy after / racing with the original, two schedules), request lost} on every Sync exchange and of {previous request sent again, last response applied again, an earlier response applied late (two choices), response dropped} on every harness-driven exchange is executed as a run of its own, plus a seeded sample of pairs of placements on different exchanges (60 per scenario quick, 600 thorough); the base scenario itself runs with all oracles as the fault-free twin. Counters: probes enum-base-scenarios, enum-base-scenarios-completed, enum-placements.",
+		Rule: sprintf(ruleB, "at least one message fault fired (response dropped, request duplicated, request lost, response delivered late) and an exchange both pushed and pulled"),
 		Oracles: []string{"C07.same-as-fault-free (after heal+drain: clients identical, equal to log replay and server rebuild; every operation stored once, per-client order)", "C07.log-gapless", "C07.client-crash", "C07.every-call-returns"}},
-	"C08": {Level: "fault_enumeration", Rule: sprintf(ruleB, "at least one database fault fired (command error before/after applying, partial ordered insert, server crash before/after a command)"),
+	"C08": {Level: "fault_enumeration", QuickS: 80, ThoroughS: 1200, Enum: true, EnumPairsQuick: 0, EnumPairsThorough: 150,
+		EnumRule: "systematic batch: base scenarios (2-3 clients, 1-2 datatypes of any kind, 6-15 events quick / 6-24 thorough incl. bursts of >100 operations, at least one committed transaction, every client syncs at the end) generated from mix64(VERIF_SEED, property/enum, index) are first executed fault-free while recording every database command issued while serving each Sync exchange (including the background snapshot work after the answer); then for EVERY exchange r, EVERY command k of it and EVERY kind in {command error before applying, applied then connection lost, server crash before the command, server crash right after it, and for insert commands a partial ordered insert} the scenario is re-executed with that single fault, followed by heal, restart and retries by all clients (final drain); thorough adds 150 seeded pairs of placements per scenario. The base scenario itself runs with all oracles as the fault-free twin. Counters: probes enum-base-scenarios, enum-base-scenarios-completed, enum-placements.",
+		Rule: sprintf(ruleB, "at least one database fault fired (command error before/after applying, partial ordered insert, server crash before/after a command)"),
 		Oracles: []string{"C08.error-not-hang (every-call-returns)", "C08.client-crash / process-crash", "C08.acked-not-lost", "C08.log-gapless / exactly-once / recoverable", "C08.retry-converges"}},
 	"C11": {Rule: sprintf(ruleB, "at least one stored snapshot document was compared with a replay of its log prefix"),
 		Oracles: []string{"C11.snapshot-equals-prefix", "C11.userdoc-equals-prefix", "C11.version-monotone", "C11.rebuild-paths-agree (server rebuild == full replay)", "C11.snapshot-catches-up"}},
